@@ -49,7 +49,7 @@ crate::jser_struct! {
     }
 }
 
-const NKINDS: u8 = 25;
+const NKINDS: u8 = 26;
 
 struct Entry {
     m: M,
@@ -308,6 +308,18 @@ pub fn check(c: &Case, obs: &mut Obs) -> Result<(), String> {
                     }
                 }
             }
+            25 => {
+                // a failing call in the middle of the chain (an invalid part): it must fail cleanly
+                // and leave no trace in what later calls produce
+                let garbage: &[u8] = [&[0x00u8, 0, 0, 0][..], &[0x60, 0, 0, 1, 0, 0], &[0xE0, 0, 0, 0, 1]][op.c as usize % 3];
+                let mut sink = Vec::new();
+                let r1 = nopanic("build_array with an invalid part", || jsonb::build_array([bi.as_slice(), garbage], &mut sink))?;
+                let r2 = nopanic("build_object with an invalid part", || jsonb::build_object([("k", bj.as_slice()), ("z", garbage)], &mut sink))?;
+                if r1.is_ok() || r2.is_ok() {
+                    return Err(format!("{tag}: building from a part with an invalid header succeeded"));
+                }
+                None
+            }
             23 => {
                 let r = nopanic("from_slice+to_vec", || jsonb::from_slice(&bi).map(|v| v.to_vec()))?
                     .map_err(|e| format!("{tag} from_slice rejects a pool document: {e:?}"))?;
@@ -362,7 +374,7 @@ const KIND_NAMES: [&str; NKINDS as usize] = [
     "op-concat", "op-delete_by_name", "op-delete_by_index", "op-delete_by_keypath", "op-array_insert", "op-object_insert", "op-object_delete",
     "op-object_pick", "op-strip_nulls", "op-build_array", "op-build_object", "op-get_by_index", "op-get_by_name", "op-get_by_keypath",
     "op-array_values", "op-object_each", "op-object_keys", "op-array_distinct", "op-array_intersection", "op-array_except", "op-select-all",
-    "op-select-array", "op-select-first", "op-reencode", "op-text-roundtrip",
+    "op-select-array", "op-select-first", "op-reencode", "op-text-roundtrip", "op-failing-call",
 ];
 
 pub fn arb_case(p: TreeParams, maxops: usize) -> BoxedStrategy<Case> {
